@@ -120,11 +120,26 @@ def scenarios(rng, root):
     # (a reused object keeps its plane position when none is given: the second slice states its own)
     pos_y = pf3.geo_low[1] + 0.5 * (pf3.n0[1] * pf3.dx0[1]) + 0.25 * pf3.dx0[1] / 2 ** (pf3.nlevels - 1)
 
+    # a plane that the finest level does not reach (no box of it within a coarse cell): that level has no task at all
+    far = None
+    fin = pf3.nlevels - 1
+    if fin >= 1:
+        for d in range(3):
+            for i in range(pf3.n0[d]):
+                if all(hi[d] // 2 ** fin < i - 1 or lo[d] // 2 ** fin > i + 1 for lo, hi in pf3.levels[fin].boxes):
+                    far = (d, pf3.geo_low[d] + (i + 0.5) * pf3.dx0[d] + 0.25 * pf3.dx0[d] / 2 ** fin)
+                    break
+            if far:
+                break
+
     def mk_m3(serial):
         def run(outdir):
             from amr_kitchen.mandoline import Mandoline
             m = Mandoline(p3, fields=[keys3[2], keys3[0], 'grid_level'], serial=serial, verbose=0)
-            return [m.slice(normal=2, pos=pos, fformat='return'), m.slice(normal=1, pos=pos_y, fformat='return')]
+            r = [m.slice(normal=2, pos=pos, fformat='return'), m.slice(normal=1, pos=pos_y, fformat='return')]
+            if far:
+                r.append(Mandoline(p3, fields=[keys3[1]], serial=serial, verbose=0).slice(normal=far[0], pos=far[1], fformat='return'))
+            return r
         return run
     sc.append(('mandoline 3D slice', mk_m3(False), mk_m3(True)))
 
